@@ -433,7 +433,7 @@ type stubCfg struct {
 
 func newStubServer(cfg stubCfg) *testServer {
 	ts := &testServer{ln: newMemListener()}
-	ts.srv = imapserver.New(&imapserver.Options{
+	opts := &imapserver.Options{
 		NewSession: func(c *imapserver.Conn) (imapserver.Session, *imapserver.GreetingData, error) {
 			s := newRecSession()
 			s.conn = c
@@ -454,7 +454,9 @@ func newStubServer(cfg stubCfg) *testServer {
 		InsecureAuth: cfg.insecure,
 		Logger:       logSink{ts},
 		TLSConfig:    stubStartTLSConfig(cfg),
-	})
+	}
+	ts.srv = imapserver.New(opts)
+	scrambleOptions(opts)
 	if cfg.implicitTLS {
 		go ts.srv.Serve(tlsMemListener{ts.ln, memTLSServerConfig()})
 	} else {
@@ -529,4 +531,16 @@ func (rc *rawClient) cmd(tag, text string) (string, []string) {
 		return "?", lines
 	}
 	return f[1], lines
+}
+
+// scrambleOptions turns the caller's Options into the opposite policy after the server was built:
+// a server is configured by what New was given (it keeps a copy), so reusing or editing the struct
+// afterwards - say, to build a second, laxer server in a table-driven setup - must not change what a
+// running server offers or accepts (C05/C17: credentials only as configured).
+func scrambleOptions(o *imapserver.Options) {
+	o.InsecureAuth = !o.InsecureAuth
+	if o.TLSConfig != nil {
+		o.TLSConfig = nil
+	}
+	o.Caps = nil
 }
